@@ -37,7 +37,7 @@
    Spare capacity after an append that does not fit is the allocator's choice: the
    model says 0 and observations never show capacities. *)
 From Coq Require Import List Bool String Ascii ZArith Arith.
-From Verif Require Import Util Ints Node Value Outcome.
+From Verif Require Import Util Ints Node Value Outcome InsReset.
 Import ListNotations.
 Local Open Scope string_scope.
 
@@ -176,4 +176,25 @@ Definition copy_method (n : node) (src : arg) : out (option val) :=
   | inr k => Panic k
   | inl (inr e) => Ret None e
   | inl (inl r) => Ret (Some (cpy n (zero_val n) r)) None
+  end.
+
+(* ---------- a history of Reset-then-CopyTo cycles on one destination ----------
+   per cycle: the destination after Reset(&d) and after CopyTo(&s, &d, buf);
+   None = some call did not return nil *)
+Fixpoint run_cycles (n : node) (d : val) (srcs : list val) : option (list (val * val)) :=
+  match srcs with
+  | [] => Some []
+  | s :: rest =>
+    match reset_method n (APtr (Some d)) with
+    | Ret (Some d1) None =>
+      match copyto_method n (APtr (Some s)) (APtr (Some d1)) with
+      | Ret (Some d2) None =>
+        match run_cycles n d2 rest with
+        | Some ds => Some ((d1, d2) :: ds)
+        | None => None
+        end
+      | _ => None
+      end
+    | _ => None
+    end
   end.
